@@ -10,6 +10,10 @@ package checks
 // Subscriber churn: recorders and GraphQL subscriptions are closed (Unsubscribe / context cancel)
 // and opened in the middle of a history, at quiescent points and inside bursts, while others stay.
 // Every subscriber must receive exactly the events of the commits made while it was subscribed.
+// Stalled subscribers: a bus subscriber / the client of a GraphQL subscription stops reading (or never
+// reads), more changes are committed than its buffer holds (the bus then waits for it, as documented),
+// and it unsubscribes / cancels. From then on the bus must serve the subscribers that stay: they
+// receive every commit of the window and every later one, and the node closes (stepStall).
 // Quiescence of the bus is established by core.BusFence (a fresh subscriber, independent of the
 // subscriptions under observation) followed by a Flush of every recorder, so that a subscriber the
 // bus has stopped serving is REPORTED (its log lacks the events) instead of being waited for.
@@ -45,6 +49,9 @@ type c20Params struct {
 	Script   []string `json:"script,omitempty"` // anchors: forced step kinds
 	Parallel bool     `json:"parallel,omitempty"`
 	Churn    bool     `json:"churn,omitempty"` // subscribers leave and join in the middle of the history
+	// StallAt: before these steps of a generated history a subscriber that has stopped reading leaves (stepStall, variant StallKind[i])
+	StallAt   []int    `json:"stall_at,omitempty"`
+	StallKind []string `json:"stall_kind,omitempty"`
 }
 
 var c20Filters = []string{
@@ -113,6 +120,30 @@ type c20Sub struct {
 	joinedMid  bool
 	othersLeft int  // other subscribers (recorders, GraphQL subscriptions) that unsubscribed while this one was open
 	leftSince  bool // ... since the last window in which this one was seen to be served
+	// stalled: the client has stopped reading the result channel (holdCh non-nil, guarded by mu)
+	stalled bool
+	holdCh  chan struct{}
+}
+
+func (s *c20Sub) out() bool { return s.dead || s.gone || s.stalled }
+
+// hold makes the reader stop taking results (it may take one more that it is already waiting for);
+// release lets it continue.
+func (s *c20Sub) hold() {
+	s.mu.Lock()
+	if s.holdCh == nil {
+		s.holdCh = make(chan struct{})
+	}
+	s.mu.Unlock()
+}
+
+func (s *c20Sub) release() {
+	s.mu.Lock()
+	if s.holdCh != nil {
+		close(s.holdCh)
+		s.holdCh = nil
+	}
+	s.mu.Unlock()
 }
 
 // c20Rec is one event-bus subscriber of the history.
@@ -126,6 +157,7 @@ type c20Rec struct {
 	joinedMid  bool
 	othersLeft int
 	leftSince  bool // another subscriber unsubscribed since the last window in which this one was seen to be served
+	stalled    bool // paused by the history (stepStall): not flushed, not judged
 }
 
 func (rc *c20Rec) take() []core.BusEvent {
@@ -173,6 +205,9 @@ type c20Hist struct {
 	origin                map[string]map[string]any // docID -> creation input
 	abort                 bool
 	oldSubG               map[string]bool // subscription goroutines left over from earlier cases of this worker
+	oldBusG               map[string]bool // bus / recorder goroutines left over from earlier cases of this worker
+	wedged                bool            // the event bus of the node is blocked for good: the node cannot be closed synchronously
+	stalls                int             // stepStall executed
 }
 
 func (h *c20Hist) logf(format string, a ...any) {
@@ -227,7 +262,7 @@ func (h *c20Hist) newCommits() []c20Commit {
 func (h *c20Hist) liveRecs() []*c20Rec {
 	var out []*c20Rec
 	for _, rc := range h.recs {
-		if !rc.gone && !rc.leaving {
+		if !rc.gone && !rc.leaving && !rc.stalled {
 			out = append(out, rc)
 		}
 	}
@@ -237,7 +272,7 @@ func (h *c20Hist) liveRecs() []*c20Rec {
 func (h *c20Hist) liveSubs() []*c20Sub {
 	var out []*c20Sub
 	for _, s := range h.subs {
-		if !s.gone && !s.dead {
+		if !s.out() {
 			out = append(out, s)
 		}
 	}
@@ -276,7 +311,7 @@ func (h *c20Hist) subscribers() []string {
 func (h *c20Hist) barrier() {
 	core.BusFence(h.n.DB.Events())
 	for _, rc := range h.recs {
-		if rc.gone {
+		if rc.gone || rc.stalled {
 			continue
 		}
 		if rc.leaving {
@@ -320,7 +355,7 @@ func (h *c20Hist) checkWindow(kind, outcome string, commits []c20Commit, per map
 	var refWant map[string]bool
 	refClean := false
 	for _, rc := range h.recs {
-		if rc.gone || rc.starved {
+		if rc.gone || rc.starved || rc.stalled {
 			continue
 		}
 		evs := rc.take()
@@ -495,7 +530,17 @@ func (h *c20Hist) openSub(name, filter string) *c20Sub {
 	s := &c20Sub{name: name, filter: filter, notify: make(chan struct{}, 1), cancel: cancel, done: make(chan struct{})}
 	go func() {
 		defer close(s.done)
-		for r := range res.Subscription { // always drained: the channel is unbuffered
+		for { // always drained (the channel is unbuffered) - unless the history makes this client stop reading
+			s.mu.Lock()
+			g := s.holdCh
+			s.mu.Unlock()
+			if g != nil {
+				<-g
+			}
+			r, open := <-res.Subscription
+			if !open {
+				return
+			}
 			sr := c20SubResult{}
 			b, _ := json.Marshal(r.Data)
 			sr.Raw = string(b)
@@ -591,15 +636,28 @@ func (s *c20Sub) waitMarker(markerID string, step int, timeout time.Duration, qu
 // its way to any subscription, every result produced so far is in the logs. Depends on states, not
 // on time; false = "cannot tell yet".
 func (h *c20Hist) subsQuiescent() bool {
+	gs, ok := h.snapshot()
+	if !ok {
+		return false // truncated
+	}
+	h.r.Count("subscription_quiescence_snapshots", 1)
+	return h.subsQuiescentIn(gs)
+}
+
+// snapshot: the stacks of all goroutines at one instant.
+func (h *c20Hist) snapshot() ([]string, bool) {
 	if h.stackBuf == nil {
 		h.stackBuf = make([]byte, 8<<20)
 	}
 	n := runtime.Stack(h.stackBuf, true)
 	if n >= len(h.stackBuf) {
-		return false // truncated
+		return nil, false
 	}
-	h.r.Count("subscription_quiescence_snapshots", 1)
-	for _, g := range strings.Split(string(h.stackBuf[:n]), "\n\n") {
+	return strings.Split(string(h.stackBuf[:n]), "\n\n"), true
+}
+
+func (h *c20Hist) subsQuiescentIn(gs []string) bool {
+	for _, g := range gs {
 		isSub := strings.Contains(g, ".handleSubscription.func1")
 		isReader := strings.Contains(g, ".openSub.func1")
 		if !isSub && !isReader {
@@ -693,7 +751,7 @@ func (h *c20Hist) settleSubs(kind, outcome string, commits []c20Commit, judge bo
 	wants := make([]*c20SubWant, len(h.subs))
 	expect := make([]map[string]bool, len(h.subs))
 	for j, s := range h.subs {
-		if s.dead || s.gone {
+		if s.out() {
 			continue
 		}
 		wants[j] = all
@@ -714,7 +772,7 @@ func (h *c20Hist) settleSubs(kind, outcome string, commits []c20Commit, judge bo
 	h.checkWindow("marker-update", "success", mc, nil)
 
 	for j, s := range h.subs {
-		if s.dead || s.gone {
+		if s.out() {
 			continue
 		}
 		w := wants[j]
@@ -1761,6 +1819,321 @@ func (h *c20Hist) selfDeadlockedSubscription() (op, stack string) {
 	return "", ""
 }
 
+var c20StallKinds = []string{"rec_fresh", "rec_live", "sub_fresh", "sub_live", "both"}
+
+// stepStall: a subscriber stops reading (rec_live: a recorder of the history; sub_live: the client of
+// an open GraphQL subscription) or never reads (rec_fresh: a new bus subscriber; sub_fresh: the client
+// of a new GraphQL subscription; both: one of each), 105-125 changes are committed (the buffer of a
+// subscriber holds 100, a GraphQL subscription additionally holds one event in its goroutine and its
+// reader one result: the bus ends up waiting for the stalled subscriber), then it unsubscribes /
+// cancels and a few more changes are committed. Every other subscriber must receive all of them.
+func (h *c20Hist) stepStall(variant string) bool {
+	if h.abort {
+		return false
+	}
+	bus := h.n.DB.Events()
+	var raw event.Subscription
+	var rc *c20Rec
+	var sub *c20Sub
+	var who []string
+	if variant == "rec_live" {
+		live := h.liveRecs()
+		if len(live) < 2 {
+			h.addRecorder(true) // somebody has to stay for the whole window
+			h.r.Count("recorder_joined_mid_history", 1)
+			h.r.Count("subscriber_joined_mid_history", 1)
+			h.barrier()
+			live = h.liveRecs()
+		}
+		rc = live[h.rng.IntN(len(live))]
+		rc.rc.Flush()
+		h.checkEvents(rc, false, "stops-reading", "success", rc.take(), c20Want{})
+		rc.rc.Pause()
+		rc.stalled = true
+		who = append(who, fmt.Sprintf("recorder#%d (stopped reading)", rc.id))
+		h.r.Count("subscriber_stopped_reading_mid_history", 1)
+	}
+	if variant == "rec_fresh" || variant == "both" {
+		var err error
+		raw, err = bus.Subscribe(event.UpdateName)
+		core.Must(err)
+		who = append(who, "a new bus subscriber of update events that never reads")
+	}
+	if variant == "sub_live" {
+		live := h.liveSubs()
+		if len(live) < 2 {
+			h.joinCount++
+			s := h.openSub(fmt.Sprintf("joined%d-unfiltered", h.joinCount), "")
+			s.joinedMid = true
+			h.r.Count("graphql_subscription_joined_mid_history", 1)
+			h.r.Count("subscriber_joined_mid_history", 1)
+			live = h.liveSubs()
+		}
+		sub = live[h.rng.IntN(len(live))]
+		sub.hold()
+		sub.stalled = true
+		who = append(who, fmt.Sprintf("GraphQL subscription %s (client stopped reading)", sub.name))
+		h.r.Count("subscriber_stopped_reading_mid_history", 1)
+	}
+	if variant == "sub_fresh" || variant == "both" {
+		h.joinCount++
+		sub = h.openSub(fmt.Sprintf("neverread%d", h.joinCount), "")
+		sub.hold() // its reader is created parked on an unrelated channel at worst one result later; see hold
+		sub.stalled, sub.joinedMid = true, true
+		who = append(who, fmt.Sprintf("GraphQL subscription %s (client never reads)", sub.name))
+	}
+	if len(who) == 0 {
+		panic("C20 harness: unknown stall variant " + variant)
+	}
+	h.stalls++
+	// the changes the stalled subscriber falls behind with
+	nops := 105 + h.rng.IntN(21)
+	if len(h.live) == 0 {
+		op, _ := h.genOp("create", map[string]bool{})
+		core.Must(op.Run(h.ctx))
+		h.refresh()
+	}
+	// three updates of the marker document first: they match every filter, so a stalled GraphQL
+	// subscription is certainly stuck with a result nobody takes (events that do not match its filter
+	// would be consumed without one) and the buffer fills up behind it
+	for i := 0; i < 3; i++ {
+		d := h.getDoc(h.marker)
+		core.Must(d.Set("i", 10*h.step+i))
+		core.Must(h.col.Update(h.ctx, d))
+	}
+	kinds := []string{"update", "update", "update", "update_unchanged", "other_create", "create"}
+	creates := 0
+	for i := 0; i < nops; i++ {
+		kind := kinds[h.rng.IntN(len(kinds))]
+		if kind == "create" {
+			if creates++; creates > 4 {
+				kind = "update"
+			}
+		}
+		op, ok := h.genOp(kind, map[string]bool{})
+		if !ok {
+			op, _ = h.genOp("other_create", map[string]bool{})
+		}
+		if err := op.Run(h.ctx); err != nil {
+			panic(fmt.Sprintf("C20 generator: %s %s was expected to succeed: %v", kind, op.Desc, err))
+		}
+		h.tuple(kind, "success")
+	}
+	before := h.newCommits()
+	h.logf("STALL %s: %d operations (%d commits) while %s does not read", variant, nops, len(before), strings.Join(who, " and "))
+	// the documented state: the bus waits for the subscriber that does not read (everybody else is idle)
+	for poll, waited := 5*time.Millisecond, time.Duration(0); waited < 20*time.Second; waited, poll = waited+poll, min(2*poll, 500*time.Millisecond) {
+		if ok, _ := h.busBlockedOnNobody(); ok {
+			h.r.Count("bus_seen_waiting_for_stalled_subscriber_before_it_left", 1)
+			break
+		}
+		time.Sleep(poll)
+	}
+	// the stalled subscriber leaves
+	if rc != nil {
+		rc.rc.Close() // its goroutine stays paused: nothing is read from the full buffer
+		h.r.Count("stalled_bus_subscriber_unsubscribed_with_full_buffer", 1)
+	}
+	if raw != nil {
+		bus.Unsubscribe(raw)
+		h.r.Count("stalled_bus_subscriber_unsubscribed_with_full_buffer", 1)
+	}
+	if sub != nil {
+		sub.cancel()
+		sub.gone = true
+		sub.release()
+		if !h.waitCancelled(sub, "after its client had stopped reading") { // the goroutine queues its Unsubscribe and closes the channel
+			return true
+		}
+		h.r.Count("stalled_graphql_client_cancelled_with_full_buffer", 1)
+		h.r.Count("graphql_subscription_cancelled_while_others_stayed", 1)
+	}
+	h.logf("STALL %s: %s left", variant, strings.Join(who, " and "))
+	h.noteLeft()
+	for i := 1 + h.rng.IntN(3); i > 0; i-- {
+		op, _ := h.genOp("create", map[string]bool{})
+		if err := op.Run(h.ctx); err != nil {
+			panic(fmt.Sprintf("C20 generator: create was expected to succeed: %v", err))
+		}
+		h.tuple("create", "success")
+	}
+	after := h.newCommits()
+	all := append(append([]c20Commit{}, before...), after...)
+	if !h.fenceOrBlocked(variant, strings.Join(who, " and "), all, after) {
+		return true
+	}
+	if rc != nil {
+		// the bus has handled the Unsubscribe: the recorder reads what was buffered and sees the channel closed
+		rc.rc.Resume()
+		rc.rc.WaitClosed()
+		rc.stalled, rc.gone = false, true
+		seen := map[string]bool{}
+		for _, c := range before {
+			seen[c.Cid] = true
+		}
+		for _, e := range rc.take() {
+			if !seen[e.Cid] {
+				h.violate("event/without-commit", fmt.Sprintf("bus subscriber #%d, which had stopped reading and then unsubscribed, was given an event that announces no commit made while it was subscribed", rc.id), map[string]any{"event": e.Cid})
+			}
+		}
+	}
+	h.barrier()
+	afterSet := map[string]bool{}
+	for _, c := range after {
+		afterSet[c.Cid] = true
+	}
+	per := map[*c20Rec]c20Want{}
+	for _, r := range h.liveRecs() {
+		per[r] = c20Want{commits: all, afterLeave: afterSet}
+		h.r.Count("recorder_windows_after_stalled_subscriber_left", 1)
+	}
+	h.checkWindow("stalled-subscriber-left", "success", all, per)
+	// the GraphQL subscriptions that stay: the marker update made now must arrive (documents were
+	// touched several times in this window: results are not matched one by one)
+	open := len(h.liveSubs())
+	h.settleSubs("stalled-subscriber-left", "success", nil, false, nil)
+	if !h.abort && len(h.liveSubs()) == open {
+		h.r.Count("subscription_windows_after_stalled_subscriber_left", int64(open))
+	}
+	h.refresh()
+	for n := 0; len(h.live) > 6 && !h.abort && n < 10; n++ {
+		h.step++
+		h.stepSimple("delete", "")
+	}
+	return true
+}
+
+// fenceOrBlocked: core.BusFence, issued after a stalled subscriber has left, either comes out (true)
+// or the bus is found blocked for good on that subscriber (reported; false, the history ends).
+//
+// Verdict without a clock: in three consecutive snapshots of all goroutines the bus goroutine of
+// this node is parked in a channel send (the only channels it sends on are subscriber buffers; or in a select around such a send),
+// while every recorder goroutine of this history is parked waiting for a message (a parked receiver
+// has an empty buffer: a send would have been handed over), every subscription goroutine and every
+// reader is idle (subsQuiescentIn), and the fence's own fresh subscriber has at most one message
+// coming. The buffer the bus is sending to belongs to nobody who will ever read: the subscriber that
+// left. Its Unsubscribe is queued behind the send.
+func (h *c20Hist) fenceOrBlocked(variant, who string, all, after []c20Commit) bool {
+	done := make(chan struct{})
+	bus := h.n.DB.Events()
+	go func() {
+		core.BusFence(bus)
+		close(done)
+	}()
+	poll := 10 * time.Millisecond // how often to look, not a criterion
+	hits := 0
+	started := time.Now()
+	var busStack string
+	for hits < 3 {
+		tick := time.NewTimer(poll)
+		select {
+		case <-done:
+			tick.Stop()
+			return true
+		case <-tick.C:
+		}
+		if poll < 400*time.Millisecond {
+			poll *= 2
+		}
+		if ok, st := h.busBlockedOnNobody(); ok {
+			hits++
+			busStack = st
+		} else {
+			hits = 0
+			if time.Since(started) > 5*c20StallTimeout {
+				break // neither: reported below as a fence that does not come out
+			}
+		}
+	}
+	h.abort, h.wedged, h.starved = true, true, true
+	// what the subscribers that stay were given (their goroutines are idle: Flush returns)
+	var lacking []string
+	for _, rc := range h.liveRecs() {
+		rc.rc.Flush()
+		got := map[string]bool{}
+		for _, e := range rc.take() {
+			got[e.Cid] = true
+		}
+		miss, missAfter := 0, 0
+		for _, c := range all {
+			if !got[c.Cid] {
+				miss++
+			}
+		}
+		for _, c := range after {
+			if !got[c.Cid] {
+				missAfter++
+			}
+		}
+		rc.starved = true
+		lacking = append(lacking, fmt.Sprintf("recorder#%d: no event for %d of the %d commits of the window, for %d of the %d made after the leave", rc.id, miss, len(all), missAfter, len(after)))
+	}
+	ex := map[string]any{"variant": variant, "who_left": who, "remaining_subscribers": lacking, "bus_goroutine": busStack}
+	if hits < 3 {
+		h.violate("event/bus-fence-not-handled-after-stalled-subscriber-left", fmt.Sprintf("%s unsubscribed after falling behind by more events than its buffer holds; a message published afterwards has not reached a fresh subscriber within %s", who, 5*c20StallTimeout), ex)
+		return false
+	}
+	h.violate("event/bus-blocked-for-good-on-unsubscribed-subscriber-with-full-buffer",
+		fmt.Sprintf("%s fell behind by more events than its buffer holds and then unsubscribed: the bus goroutine stays blocked sending to that subscriber's full buffer (the Unsubscribe command is queued behind the send); no subscriber receives any further update event (%s) and closing the node waits for the bus", who, strings.Join(lacking, "; ")), ex)
+	return false
+}
+
+// busBlockedOnNobody: see fenceOrBlocked.
+func (h *c20Hist) busBlockedOnNobody() (bool, string) {
+	gs, ok := h.snapshot()
+	if !ok {
+		return false, ""
+	}
+	busN, stack := 0, ""
+	for _, g := range gs {
+		id := c20GoroutineID(g)
+		switch {
+		case strings.Contains(g, "event.(*channelBus).handleChannel") && !h.oldBusG[id]:
+			// waiting for room in a subscriber's buffer: a plain send, or a select whose other arm is
+			// that subscriber's own Unsubscribe (when idle the goroutine is in "chan receive")
+			if st, _ := c20GoroutineState(g); st != "chan send" && st != "select" {
+				return false, ""
+			}
+			busN++
+			stack = g
+		case strings.Contains(g, "core.(*ChurnRecorder).loop") && !h.oldBusG[id]:
+			// waiting for a message (select) or paused by the history (chan receive)
+			if st, top := c20GoroutineState(g); !(st == "select" || st == "chan receive") || !strings.Contains(top, "core.(*ChurnRecorder).loop") {
+				return false, ""
+			}
+		}
+	}
+	if busN != 1 || !h.subsQuiescentIn(gs) {
+		return false, ""
+	}
+	return true, stack
+}
+
+// closeNode closes the node at the end of the case. After a stalled subscriber has left, closing is
+// part of the oracle: the bus must have got rid of that subscriber, Close waits for the bus.
+func (h *c20Hist) closeNode() {
+	if h.wedged {
+		go h.n.Close() // reported already; Close would wait for the bus for good
+		return
+	}
+	if h.stalls == 0 {
+		h.n.Close()
+		return
+	}
+	done := make(chan struct{})
+	go func() {
+		h.n.Close()
+		close(done)
+	}()
+	select {
+	case <-done:
+		h.r.Count("node_closed_after_stalled_subscriber_left", 1)
+	case <-time.After(5 * c20StallTimeout):
+		h.violate("hang/node-close-after-stalled-subscriber-left", fmt.Sprintf("closing the node did not return within %s after a history in which a subscriber that had stopped reading unsubscribed", 5*c20StallTimeout),
+			map[string]any{"bus_goroutines": c20Goroutines("event.(*channelBus)")})
+	}
+}
+
 // stepChurnBurst: several operations back to back without a barrier, and between them subscribers
 // leave and join. Every subscriber has to receive exactly the events of the operations that
 // completed while it was subscribed, in completion order.
@@ -2099,8 +2472,14 @@ func runC20(ctx context.Context, c core.Case, r *core.Rec) {
 	var p c20Params
 	c.P(&p)
 	h := &c20Hist{ctx: ctx, p: p, r: r, rng: c.Rng(), blocks: map[string]bool{}, tuples: map[string]bool{}, origin: map[string]map[string]any{}, announced: map[string]bool{}}
+	h.oldBusG = map[string]bool{}
+	for _, what := range []string{"event.(*channelBus).handleChannel", "core.(*ChurnRecorder).loop"} {
+		for _, g := range c20Goroutines(what) {
+			h.oldBusG[c20GoroutineID(g)] = true
+		}
+	}
 	h.n = fastNode(ctx, core.NodeOpts{Fault: true})
-	defer h.n.Close()
+	defer h.closeNode()
 	_, err := h.n.DB.AddSchema(ctx, c20SDL(p.Config))
 	core.Must(err)
 	h.col = h.n.Col(ctx, "Doc")
@@ -2212,6 +2591,15 @@ func runC20(ctx context.Context, c core.Case, r *core.Rec) {
 				kind = "txn:failing-commit"
 			}
 		}
+		for k, at := range p.StallAt {
+			if at == s && len(p.Script) == 0 {
+				h.stepStall(p.StallKind[k%len(p.StallKind)])
+				h.step++
+			}
+		}
+		if h.abort {
+			break
+		}
 		if p.Churn && len(p.Script) == 0 && h.rng.IntN(100) < 22 {
 			// a subscriber leaves or joins at a quiescent point, before the step
 			h.churnAction([]string{"leave", "join"}[h.rng.IntN(2)], nil)
@@ -2225,6 +2613,8 @@ func runC20(ctx context.Context, c core.Case, r *core.Rec) {
 			h.stepChurnBurst()
 		case kind == "cancel_race":
 			h.stepCancelRace()
+		case strings.HasPrefix(kind, "stall:"):
+			h.stepStall(strings.TrimPrefix(kind, "stall:"))
 		case kind == "burst":
 			h.stepBurst()
 		case kind == "parallel":
@@ -2350,6 +2740,13 @@ func c20Cases(seed uint64, tier string) []core.Case {
 		cs = append(cs, core.MkCase("anchor-churn/"+cfg, 1, c20Params{Config: cfg, Subs: 2, Filter: 1, Script: churnLong}))
 		cs = append(cs, core.MkCase("anchor-cancel-while-busy/"+cfg, 1, c20Params{Config: cfg, Subs: 1, Filter: 2, Script: cancelRace}))
 	}
+	// a subscriber that does not read (any more) leaves after more commits than its buffer holds; the
+	// minimal histories first (one kind each), then all four kinds in one history
+	for _, cfg := range []string{"plain", "branchable"} {
+		cs = append(cs, core.MkCase("anchor-stalled-graphql-client-cancels/"+cfg, 1, c20Params{Config: cfg, Subs: 1, Filter: 0, Script: []string{"create", "stall:sub_fresh", "create"}}))
+		cs = append(cs, core.MkCase("anchor-stalled-bus-subscriber-unsubscribes/"+cfg, 1, c20Params{Config: cfg, Subs: 2, Filter: 0, Script: []string{"create", "stall:rec_fresh", "create"}}))
+	}
+	cs = append(cs, core.MkCase("anchor-stalled-subscribers/plain", 1, c20Params{Config: "plain", Subs: 2, Filter: 3, Script: []string{"create", "stall:sub_live", "update", "stall:rec_live", "burst", "stall:rec_fresh", "txn:commit", "stall:sub_fresh", "create_many", "stall:both"}}))
 	for _, cfg := range []string{"plain", "branchable"} {
 		for _, k := range []int{1, 2, 4} {
 			cs = append(cs, core.MkCase("anchor/"+cfg, 1, c20Params{Config: cfg, Subs: k, Filter: 0, Script: anchor}))
@@ -2365,6 +2762,16 @@ func c20Cases(seed uint64, tier string) []core.Case {
 		p := c20Params{Config: []string{"plain", "branchable"}[rng.IntN(2)], Subs: []int{1, 2, 4}[rng.IntN(3)], Steps: 12 + rng.IntN(12), Filter: rng.IntN(len(c20Filters)), Parallel: rng.IntN(4) == 0}
 		p.Churn = rngChurn.IntN(4) != 0
 		cs = append(cs, core.MkCase("history/"+p.Config, rng.Uint64(), p))
+	}
+	// histories in which, besides the ordinary churn, subscribers that have stopped reading leave
+	rngStall := rand.New(rand.NewPCG(seed, 2022))
+	for i := 0; i < n/10; i++ {
+		p := c20Params{Config: []string{"plain", "branchable"}[rngStall.IntN(2)], Subs: []int{1, 2, 4}[rngStall.IntN(3)], Steps: 6 + rngStall.IntN(8), Filter: rngStall.IntN(len(c20Filters)), Churn: rngStall.IntN(3) != 0}
+		for k := 1 + rngStall.IntN(2); k > 0; k-- {
+			p.StallAt = append(p.StallAt, rngStall.IntN(p.Steps))
+			p.StallKind = append(p.StallKind, c20StallKinds[rngStall.IntN(len(c20StallKinds))])
+		}
+		cs = append(cs, core.MkCase("history-stall/"+p.Config, rngStall.Uint64(), p))
 	}
 	return cs
 }
@@ -2383,13 +2790,16 @@ func init() {
 		"recorder_left_while_others_stayed", "graphql_subscription_cancelled_while_others_stayed", "recorder_joined_mid_history", "graphql_subscription_joined_mid_history",
 		"recorder_windows_after_another_subscriber_left", "recorder_windows_of_mid_history_joiner",
 		"subscription_windows_after_another_subscriber_left", "subscription_windows_of_mid_history_joiner",
-		"churn_bursts", "subscriber_left_inside_burst", "subscriber_joined_inside_burst")
+		"churn_bursts", "subscriber_left_inside_burst", "subscriber_joined_inside_burst",
+		// a subscriber that had stopped reading left with a full buffer while the bus was waiting for it, and the others were judged afterwards
+		"stalled_bus_subscriber_unsubscribed_with_full_buffer", "stalled_graphql_client_cancelled_with_full_buffer", "subscriber_stopped_reading_mid_history", "bus_seen_waiting_for_stalled_subscriber_before_it_left",
+		"recorder_windows_after_stalled_subscriber_left", "subscription_windows_after_stalled_subscriber_left", "node_closed_after_stalled_subscriber_left")
 	core.Register(&core.Check{
 		ID: "C20", Level: "exploration",
 		Rule: "case = one mutation history on one node (plain or @branchable collection plus a second collection) observed by k in {1,2,4} bus recorders and two GraphQL subscriptions (generated filter / none): " +
 			"creates, updates, deletes, filtered and multi-document requests, several mutations in one request, requests failing by validation, by an injected storage fault (random k) or by a failing Commit, " +
 			"explicit transactions that commit / are discarded / fail at commit, bursts without intermediate barrier, a phase with 2-3 concurrent callers; in 3 of 4 histories subscribers come and go: recorders unsubscribe and " +
-			"GraphQL subscriptions are cancelled while others stay, new ones join, at quiescent points and between the operations of a burst - every subscriber must get exactly the events of the commits made while it was subscribed. evaluations = quiescent windows compared " +
+			"GraphQL subscriptions are cancelled while others stay, new ones join, at quiescent points and between the operations of a burst - every subscriber must get exactly the events of the commits made while it was subscribed; anchors and n/10 extra histories contain subscribers that stop reading (or never read), fall 105-125 events behind (buffer: 100) and then unsubscribe / cancel: the subscribers that stay must get every commit of that window and of the rest of the history, and the node must close. evaluations = quiescent windows compared " +
 			"(events vs new composite/collection blocks in /db/blocks). distinct = (operation kind, outcome, configuration, recorder count) seen in histories with >=1 failed or discarded operation and >=1 multi-document request.",
 		Cases:       c20Cases,
 		Run:         runC20,
@@ -2401,6 +2811,7 @@ func init() {
 			"a subscriber has left once its Unsubscribe is queued on the bus (GraphQL: result channel closed after cancel), has joined once Subscribe / ExecRequest returned; the bus handles commands in order, so both are exact points of a single caller's history",
 			"a GraphQL subscription result is expected for every non-delete document-level commit of the subscribed collection whose document matches the filter in an ordinary query right after the operation; results for delete commits are counted, not judged; every document is touched at most once per quiescent window",
 			"single caller for most of the history; the concurrent phase uses disjoint documents per caller",
+			"a bus that waits for a subscriber with a full buffer is documented behaviour and not judged while that subscriber is subscribed; once its Unsubscribe is queued (GraphQL: result channel closed after cancel) the bus must get on. 'Blocked for good' is a state verdict, not a timeout: in three consecutive goroutine snapshots the bus goroutine of this node is parked in a channel send while every recorder goroutine is parked waiting for a message (empty buffer), every subscription goroutine and reader is idle, and the fence issued after the leave has not come out; node close: watchdog 450 s",
 		},
 	})
 }
